@@ -195,8 +195,11 @@ def hidden_runs(pid: str, repo: str):
         if not os.path.exists(mp):
             continue
         meta = json.load(open(mp))
-        if meta.get("property") != pid:
+        also = meta.get("also_checked_by") or {}
+        if meta.get("property") != pid and pid not in also:
             continue
+        if pid in also:
+            meta = dict(meta, **also[pid])
         for which in ("clean", "patch"):
             pp = os.path.join(root, name, which + ".diff")
             d = tempfile.mkdtemp(prefix="psthid.")
